@@ -318,3 +318,148 @@ Proof.
   vm_compute. split; [repeat split|]. split; [intros ix []|].
   constructor; [|constructor]. right. constructor; [reflexivity|constructor].
 Qed.
+
+(* ================================================================== *)
+(* ---- Bridge unique key <-> rows ----
+   The unique index that ValidateFix GENERATES (AddRequiredFields, then
+   AddUniqueIndex; the user gave no key) is the identity key of the rows the
+   row builder of C11 writes (Model/Rows.v) and of the task model
+   (Model/BridgeRowsTask.v: [ikey]; "same (block number, ikey) within a pair"
+   is the task layer's unique-index collision).  Definitions:
+   Model/BridgeKey.v; proofs: Proofs/BridgeKeyP.v.
+   [same_decl g' d]: the Config-level integration g' and the Rows-level
+   declaration d agree on name, table column names, per top-level input
+   (indexed?, column; no components -- Rows.v's domain), per block field
+   (name, column); ABI types, filters and signature hash are free.
+   [user_plain g] (decidable; NOT implied by ValidateFix -- known findings):
+   on the declaration as the user wrote it, a block field named like an
+   identity field is bound to the column of that name, nothing else is bound to
+   an identity column, and an identity column / field is declared only where
+   AddRequiredFields adds it anyway. *)
+From Shovel Require Model.Filter Model.Rows Model.BridgeRowsTask Model.TaskTypes Model.TaskSpec
+  Proofs.BridgeKeyP.
+From Shovel Require Import Model.BridgeKey.
+
+(* obligation on the regenerated tables: the add(name, type) calls with their
+   guards and the candidate key columns are the ones this bridge is proved for *)
+Example gen_tables_standard : g_required G = std_required /\ g_possible G = id_names.
+Proof. exact BridgeKeyP.gen_tables_standard. Qed.
+
+(* (1) the generated unique index is exactly the identity key: ig_name,
+   src_name, block_num, tx_idx, then log_idx when an input is selected, abi_idx
+   when a NON-INDEXED input is selected, trace_action_idx when a block field is
+   named trace_* ([identity_key], read off the ROWS-level declaration); every
+   one of these columns is a table column written by the block-data entry of
+   the same name at exactly one position of the COPY column list
+   ([key_written]); by indexing mode ([mode_table]): tx -> the four; log ->
+   + log_idx (+ abi_idx); trace -> + trace_action_idx, and a trace integration
+   that also selects inputs emits no rows at all *)
+Theorem default_unique_is_identity_key : forall g g' d,
+  user_plain g = true -> t_unique (ig_table g) = [] ->
+  fix_one G g = Some g' -> same_decl g' d ->
+  t_unique (ig_table g') = [identity_key d]
+  /\ generated_key (g_possible G) g' = identity_key d
+  /\ key_written d (identity_key d)
+  /\ mode_table d.
+Proof. exact BridgeKeyP.default_unique_is_identity_key_lemma. Qed.
+Print Assumptions default_unique_is_identity_key.
+
+(* (2) for rows C11 speaks about ([declared_row]: what Rows.insert emits, by
+   BridgeRowsTaskP.kinsert_declared), of one declaration under two contexts:
+   the projection of the stored row to the unique-index columns
+   ([uproj]: [None] = column not written = NULL) IS the list of identity cells
+   of (integration, source, block number, ikey) -- no part is NULL;
+   the same item again (same source, block number, ikey) has the same
+   projection (collision); and in a well-formed block ([wf_items]; when no
+   non-indexed input is selected a log decodes to at most one row:
+   [single_row_scans], not implied by Rows.v where the decoding is a given;
+   same source and number = same block) equal projections come from equal
+   (source, block number, ikey) only (no false collision) *)
+Theorem unique_projection_injective : forall d u c c' dbs dbs' b b' k k' gr gr',
+  key_written d u ->
+  BridgeRowsTask.declared_row d c dbs b k gr -> BridgeRowsTask.declared_row d c' dbs' b' k' gr' ->
+  uproj d u gr = key_cells (Rows.d_name d) (Rows.c_src c) (Rows.b_num b) k u
+  /\ Forall not_null (uproj d u gr)
+  /\ (Rows.c_src c = Rows.c_src c' -> Rows.b_num b = Rows.b_num b' -> k = k' ->
+      uproj d u gr = uproj d u gr')
+  /\ (BridgeRowsTask.wf_items b -> single_row_scans d b ->
+      (Rows.c_src c = Rows.c_src c' -> Rows.b_num b = Rows.b_num b' -> b = b') ->
+      uproj d u gr = uproj d u gr' ->
+      Rows.c_src c = Rows.c_src c' /\ Rows.b_num b = Rows.b_num b' /\ k = k').
+Proof. exact BridgeKeyP.unique_projection_injective_lemma. Qed.
+Print Assumptions unique_projection_injective.
+
+(* (1) + (2) + the rows->task bridge of C01: in every state of a growth history
+   of the task model over the instantiated chain, two stored rows of the pair
+   collide in the task model's sense (same block number and same key) exactly
+   when their C11 rows agree on the columns of the unique index the
+   configuration generated -- and no such column is NULL *)
+Theorem configured_index_is_task_key : forall g g' dcl ctx dbs rbs (c : TaskTypes.tcfg) (d : TaskTypes.db),
+  user_plain g = true -> t_unique (ig_table g) = [] ->
+  fix_one G g = Some g' -> same_decl g' dcl ->
+  BridgeRowsTask.rows_chain_wf rbs -> Forall BridgeRowsTask.wf_items rbs ->
+  Forall (single_row_scans dcl) rbs ->
+  BridgeRowsTask.inserts_ok dcl ctx dbs rbs -> N.of_nat (List.length rbs) < TaskSpec.nmax ->
+  TaskSpec.TaskInvG c (BridgeRowsTask.inst_chain dcl ctx dbs rbs) d ->
+  exists u, t_unique (ig_table g') = [u] /\
+  forall r r', In r (TaskTypes.d_rows (TaskSpec.pv c d)) -> In r' (TaskTypes.d_rows (TaskSpec.pv c d)) ->
+  exists gr gr',
+    TaskTypes.r_val r = BridgeRowsTask.enc_row gr /\ TaskTypes.r_val r' = BridgeRowsTask.enc_row gr'
+    /\ Forall not_null (uproj dcl u gr) /\ Forall not_null (uproj dcl u gr')
+    /\ (uproj dcl u gr = uproj dcl u gr'
+        <-> TaskTypes.r_bnum r = TaskTypes.r_bnum r' /\ TaskTypes.r_key r = TaskTypes.r_key r').
+Proof. exact BridgeKeyP.configured_index_is_task_key_lemma. Qed.
+Print Assumptions configured_index_is_task_key.
+
+(* (3) where the preconditions fail.
+   (a) known finding C16-remapped-identity-field ({name: log_idx, column: li}):
+   without [user_plain] the generated key contains a column (log_idx) that no
+   block-data entry writes -- [written_by_field] fails, the column is NULL in
+   every row, and two DIFFERENT rows are emitted all the same *)
+Theorem remapped_identity_key_refuted : ~ generated_key_written_unconditional.
+Proof. exact BridgeKeyP.remapped_identity_key_refuted_lemma. Qed.
+Print Assumptions remapped_identity_key_refuted.
+Example remapped_key_column_null :
+  user_plain remap_ig = false
+  /\ t_unique (ig_table remap_fixed) = [[kn_ig; kn_src; kn_block; kn_tx; kn_log]]
+  /\ (forall gr, col_value remap_decl kn_log gr = None)
+  /\ exists gr1 gr2, BridgeRowsTask.kinsert remap_decl erc_ctx [] two_block
+       = Outcome.Ok [(BridgeRowsTask.Key 0 (Some 0) (Some 0%nat) None, gr1);
+                     (BridgeRowsTask.Key 0 (Some 0) (Some 1%nat) None, gr2)].
+Proof. exact BridgeKeyP.remapped_key_column_null_lemma. Qed.
+
+(* (b) [single_row_scans] is needed: one indexed selected input (key without
+   abi_idx), a log whose given decoding has two rows: two rows with different
+   ikeys (abi_idx 0 and 1) and the same projection *)
+Theorem single_row_scans_needed_refuted : ~ projection_injective_unconditional.
+Proof. exact BridgeKeyP.single_row_scans_needed_refuted_lemma. Qed.
+Print Assumptions single_row_scans_needed_refuted.
+
+(* non-vacuity: ERC-20 Transfer(address indexed from, address indexed to,
+   uint256 value), columns f, t, v, no user block field, run through the
+   Config model (fix_one over the regenerated tables) and through the Rows
+   model (log data decoded by the ABI model of C09/C10): the premises of the
+   theorems hold; the generated index is (ig_name, src_name, block_num,
+   tx_idx, log_idx, abi_idx); the one emitted row has key (tx 2, log 5, abi 0)
+   and its projection to the index is ("erc20", "main", 1, 2, 5, 0) *)
+Example erc20_bridge_hypotheses :
+  user_plain erc_ig = true /\ t_unique (ig_table erc_ig) = []
+  /\ fix_one G erc_ig = Some erc_fixed /\ same_decl erc_fixed erc_decl
+  /\ BridgeRowsTask.wf_items erc_block /\ single_row_scans erc_decl erc_block.
+Proof. exact BridgeKeyP.erc_hyps. Qed.
+Example erc20_bridge_run :
+  t_unique (ig_table erc_fixed) = [[kn_ig; kn_src; kn_block; kn_tx; kn_log; kn_abi]]
+  /\ identity_key erc_decl = [kn_ig; kn_src; kn_block; kn_tx; kn_log; kn_abi]
+  /\ Rows.copy_columns erc_decl
+     = [Filter.s2b "f"; Filter.s2b "t"; Filter.s2b "v"; kn_ig; kn_src; kn_block; kn_tx; kn_log; kn_abi]
+  /\ exists gr,
+       BridgeRowsTask.kinsert erc_decl erc_ctx [] erc_block
+         = Outcome.Ok [(BridgeRowsTask.Key 2 (Some 5) (Some 0%nat) None, gr)]
+       /\ Rows.insert Rows.fixed erc_decl erc_ctx [] [erc_block] = Outcome.Ok [gr]
+       /\ gr = [Filter.VBytes (Some (repeat 0 19 ++ [10])); Filter.VBytes (Some (repeat 0 19 ++ [11]));
+                Filter.VU256 1000; Filter.VStr (Filter.s2b "erc20"); Filter.VStr (Filter.s2b "main");
+                Filter.VU64 1; Filter.VU64 2; Filter.VU64 5; Filter.VInt Z0]
+       /\ uproj erc_decl (identity_key erc_decl) gr
+          = [Some (Filter.VStr (Filter.s2b "erc20")); Some (Filter.VStr (Filter.s2b "main"));
+             Some (Filter.VU64 1); Some (Filter.VU64 2); Some (Filter.VU64 5); Some (Filter.VInt Z0)].
+Proof. exact BridgeKeyP.erc_run. Qed.
